@@ -1,0 +1,34 @@
+//go:build verif
+
+package desync
+
+// VerifChain, when set by the verification harness, is called at the instrumented
+// sites of FailoverGroup (failover.go) and SwapStore / SwapWriteStore (swapstore.go):
+// before every Lock/RLock of their mutex (the intent), after the lock was acquired
+// (with what was read under it), after it was released, after a member call returned
+// and inside errorFrom. obj is the wrapper, ev the site, a and b its values and peer
+// the member store concerned (or nil). It lets the harness schedule the goroutines
+// and record totally ordered event traces.
+var VerifChain func(obj interface{}, ev string, a, b int, peer Store)
+
+func verifChain(obj interface{}, ev string, a, b int, peer Store) {
+	if f := VerifChain; f != nil {
+		f(obj, ev, a, b, peer)
+	}
+}
+
+// verifChainKind classifies the outcome of a member call for a "ret" event:
+// 0 = no error (HasChunk: false), 1 = no error and HasChunk said true,
+// 2 = ChunkMissing, 3 = any other error.
+func verifChainKind(has bool, err error) int {
+	if err == nil {
+		if has {
+			return 1
+		}
+		return 0
+	}
+	if _, ok := err.(ChunkMissing); ok {
+		return 2
+	}
+	return 3
+}
